@@ -1078,6 +1078,18 @@ class Hooks:
 
         self.patch(RenderContext, "copy", copy)
 
+        # `render ... for`: the ForLoop object is built once, before the first item
+        from liquid2.builtin.tags import for_tag
+        orig_forloop_init = for_tag.ForLoop.__init__
+
+        def forloop_init(self_: Any, *a: Any, **kw: Any) -> None:
+            orig_forloop_init(self_, *a, **kw)
+            if frames and frames[-1].get("partial") and frames[-1]["need"]:
+                frames[-1]["need"] = False
+                dec.append(self_.length + 1)
+
+        self.patch(for_tag.ForLoop, "__init__", forloop_init)
+
         orig_limit = RenderContext.raise_for_loop_limit
 
         def limit(self_: Any, length: int = 1) -> None:
